@@ -36,7 +36,7 @@ def single_call_cases(rnd, per):
     """every function x boundary index values -2..len+2 (one call per history)"""
     out = []
     for name in sorted(gen_lib.SIGS):
-        for _ in range(per * 5 if name in ('arrayIndexOf', 'arrayLastIndexOf') else per):      # searches over confusable values
+        for _ in range(per * 5 if name in ('arrayIndexOf', 'arrayLastIndexOf', 'arraySort') else per):      # searches over confusable values
             out.append((rnd.randrange(1 << 30), 1, [name]))
     return out
 
